@@ -13,7 +13,7 @@ import argparse, importlib, json, os, subprocess, sys, time, traceback
 HERE = os.path.dirname(os.path.abspath(__file__))
 sys.path.insert(0, HERE)
 import vlib, gen
-from vlib import VERIF, LEAN, REPO
+from vlib import VERIF, LEAN, REPO, OUT
 
 def load_findings():
     p = os.path.join(VERIF, 'known_findings.json')
@@ -56,6 +56,14 @@ def main():
         if not v['ok']: broken['translator'].append(f"Gen/{k}.lean from {v['src']}: {v['refused']}")
     # a refusal in a module this property does not import is not this property's business
     stats['gen'] = {k: {'src': v['src'], 'sha256': v.get('sha256'), 'ok': v['ok'], 'notes': v.get('notes')} for k, v in mine.items()}
+    if not args.no_build:
+        import transcheck
+        try:
+            nev, bad = transcheck.selfcheck(genrep, list(mine), np.random.default_rng([seed, 31337]), 150 if args.tier == 'quick' else 4000)
+        except Exception as e:
+            nev, bad = 0, [f'translator self-check crashed: {type(e).__name__}: {e}'[:300]]
+        stats['translator_selfcheck_evaluations'] = nev
+        for b_ in bad: broken['translator'].append('translator self-check: ' + b_)
 
     # ---- 2. build + audit
     module = f'LentilVerif.Props.{prop}'
@@ -238,7 +246,7 @@ def match_finding(H, findings, prop, case, msg):
     return None
 
 def write_evidence(prop, args, seed, t0, H, stats, thms, discharged, violations):
-    os.makedirs(os.path.join(VERIF, 'evidence'), exist_ok=True)
+    os.makedirs(os.path.join(OUT, 'evidence'), exist_ok=True)
     ev = {
         'property_id': prop, 'tier': args.tier, 'seed': seed, 'level': 'proof',
         'coverage': {
@@ -251,6 +259,7 @@ def write_evidence(prop, args, seed, t0, H, stats, thms, discharged, violations)
             'theorems': stats.get('theorems', []),
             'unproven_clauses': list(getattr(H, 'UNPROVEN', [])),
             'translated_sources': stats.get('gen', {}),
+            'translator_selfcheck_evaluations': stats.get('translator_selfcheck_evaluations', 0),
             'evaluations': stats.get('evaluations', 0),
             'distinct_nontrivial': stats.get('distinct_nontrivial', 0),
             'distinct': stats.get('distinct', 0),
@@ -267,10 +276,10 @@ def write_evidence(prop, args, seed, t0, H, stats, thms, discharged, violations)
         'wall_s': round(time.time() - t0, 2),
         'violations': violations,
     }
-    json.dump(ev, open(os.path.join(VERIF, 'evidence', f'{prop}.json'), 'w'), indent=1, default=str)
+    json.dump(ev, open(os.path.join(OUT, 'evidence', f'{prop}.json'), 'w'), indent=1, default=str)
 
 def finish_violation(prop, args, seed, t0, H, broken, failing, stats, thms=(), discharged=()):
-    os.makedirs(os.path.join(VERIF, 'replays'), exist_ok=True)
+    os.makedirs(os.path.join(OUT, 'replays'), exist_ok=True)
     rep = {'property': prop, 'seed': seed, 'tier': args.tier, 'broken': {k: v for k, v in broken.items() if v}}
     if failing:
         c, msg = failing
@@ -278,7 +287,7 @@ def finish_violation(prop, args, seed, t0, H, broken, failing, stats, thms=(), d
     else:
         rep.update({'kind': 'no-failing-input-found'})
     name = f"replays/{prop}-{vlib.jhash(rep)}.json"
-    json.dump(rep, open(os.path.join(VERIF, name), 'w'), indent=1, default=str)
+    json.dump(rep, open(os.path.join(OUT, name), 'w'), indent=1, default=str)
     try:
         write_evidence(prop, args, seed, t0, H, stats, list(thms), list(discharged), violations=1)
     except Exception:
@@ -290,7 +299,7 @@ def finish_violation(prop, args, seed, t0, H, broken, failing, stats, thms=(), d
     return 1
 
 def replay(prop, H, path):
-    rep = json.load(open(path if os.path.isabs(path) else os.path.join(VERIF, path)))
+    rep = json.load(open(path if os.path.isabs(path) else os.path.join(OUT, path)))
     if rep.get('kind') != 'failing-input':
         print(f'{path}: no concrete input recorded; broken obligations were: {json.dumps(rep.get("broken"))[:800]}')
         print('re-run the check itself to see whether they still fail'); return 2
